@@ -23,7 +23,9 @@ class C07(c01.C01):
                          'fx_position_not_declared_cross_currency_flows.judged', 'cross_currency_credit.judged',
                          'refusal.judged',
                          'models.judged.with_two_foreign_suppliers_of_one_market',
-                         'retry_after_refusal.judged')
+                         'retry_after_refusal.judged',
+                         'models.judged.with_country_currency_member_overwritten_after_construction',
+                         'gold_set_up_directly_then_region_joins.judged')
     which = ('fx', 'ledger', 'zone')
 
     def n_cases(self, tier):
@@ -36,6 +38,13 @@ class C07(c01.C01):
                     'domestic_first': rng.random() < 0.5, 'attempts': rng.choice([1, 1, 2]),
                     'xr_cad': [rng.choice([1.0, 1.25, 0.8, 2.0]) for _ in range(n_)],
                     'xr_usd': [rng.choice([1.0, 0.5, 1.6, 2.5]) for _ in range(n_)]}
+        if idx % 16 == 13:
+            n_ = 7
+            return {'kind': 'gold_set_up_directly_then_region_joins', 'gp_ca': rng.choice([4.0, -2.5, 1.5]), 'gp_us': rng.choice([-3.0, 2.0, 0.0]),
+                    'gift_qc': rng.choice([5.0, 2.5]), 'gift_us': rng.choice([2.0, 3.5]), 'joins': rng.choice(['CAD', 'USD', 'CAD']),
+                    'ext_first': rng.random() < 0.7, 'second_late_country': rng.random() < 0.5,
+                    'xr_cad': [rng.choice([1.5, 1.25, 0.8, 2.0]) for _ in range(n_)],
+                    'xr_usd': [rng.choice([0.8, 0.5, 1.6, 2.5]) for _ in range(n_)]}
         case = c01.gen_case(rng, idx, tier, emphasis='fx')
         if idx % 8 == 2:
             # one market with suppliers from two other currency zones (unequal shares)
@@ -43,6 +52,12 @@ class C07(c01.C01):
             if M.force_two_foreign_suppliers(rng, sp3):
                 case['spec'] = sp3
                 case['two_foreign_suppliers'] = True
+        if idx % 8 == 6:
+            case.setdefault('build_opts', {})['overwrite_currency_member'] = True
+            for _ in range(40):
+                if self.cross_flows(case['spec']) > 0:
+                    break
+                case['spec'] = M.gen_spec(rng, n_zones=rng.choice([2, 3]), ext=True, maxtime=4)
         case['twin_without_ext'] = (idx % 4 == 3)
         if case['twin_without_ext']:
             # a spec whose twin without an external sector is well defined: no gold, no numeraire-zone sector,
@@ -120,9 +135,80 @@ class C07(c01.C01):
         return {'verdict': 'violated' if rec.violations else 'held', 'nontrivial': True, 'shape': 'retry_after_refusal',
                 'counters': rec.counters, 'violations': rec.violations, 'obs': {'refusals': refused}}
 
+    def run_gold_then_region(self, case):
+        """Gold purchases are set up with the public InternationalGold.SetGoldPurchases() while the model is being put
+        together; afterwards a Region joins one of the existing currency zones and gifts cross the border both ways."""
+        import contextlib, io
+        from sfc_models.models import Model, Country, Region
+        from sfc_models.sector import Sector
+        from sfc_models.external import ExternalSector
+        from vf import monitors
+        rec = monitors.Recorder()
+        T = 4
+        xr = {'CAD': case['xr_cad'], 'USD': case['xr_usd']}
+        mod = Model()
+        ext = ExternalSector(mod) if case['ext_first'] else None
+        ca = Country(mod, 'CA', 'CA', currency='CAD')
+        us = Country(mod, 'US', 'US', currency='USD')
+        if ext is None:
+            ext = ExternalSector(mod)
+        gca = Sector(ca, 'GOV', 'gov', has_F=True)
+        gus = Sector(us, 'GOV', 'gov', has_F=True)
+        gca.AddVariable('GP', 'gold purchases', repr(case['gp_ca']))
+        gus.AddVariable('GP', 'gold purchases', repr(case['gp_us']))
+        ext['GOLD'].SetGoldPurchases(gca, 'GP', 100.)
+        ext['GOLD'].SetGoldPurchases(gus, 'GP', 50.)
+        # the model is extended afterwards: a region that shares an existing currency
+        qc = Region(mod, 'QC', 'QC', currency=case['joins'])
+        if case['second_late_country']:
+            Country(mod, 'TX', 'TX', currency='USD' if case['joins'] == 'CAD' else 'CAD')
+        hq = Sector(qc, 'HH', 'hh', has_F=True)
+        hu = Sector(us if case['joins'] == 'CAD' else ca, 'HH', 'hh', has_F=True)
+        hq.AddVariable('GIFT', 'gift', repr(case['gift_qc']))
+        hu.AddVariable('GIFT', 'gift', repr(case['gift_us']))
+        mod.RegisterCashFlow(hq, hu, 'GIFT')
+        mod.RegisterCashFlow(hu, hq, 'GIFT')
+        ext['XR'].SetExogenous('CAD', list(xr['CAD']))
+        ext['XR'].SetExogenous('USD', list(xr['USD']))
+        mod.MaxTime = T
+        try:
+            with contextlib.redirect_stdout(io.StringIO()):
+                mod.main()
+        except Exception as e:
+            return {'verdict': 'notjudged', 'shape': 'gold_then_region|' + type(e).__name__, 'counters': rec.counters,
+                    'obs': {'err': repr(e)[:300]}}
+        V = mod.EquationSolver.TimeSeries
+        rec.count('gold_set_up_directly_then_region_joins.judged')
+        cq, cu = case['joins'], ('USD' if case['joins'] == 'CAD' else 'CAD')      # currencies of the two gift senders
+        nq, nu = 'QC_HH', ('US_HH' if case['joins'] == 'CAD' else 'CA_HH')
+        for k in range(1, T + 1):
+            rq, ru = xr[cq][k], xr[cu][k]
+            gq, gu = V[nq + '__GIFT'][k], V[nu + '__GIFT'][k]
+            gp = {'CAD': V['CA_GOV__GP'][k], 'USD': V['US_GOV__GP'][k]}
+            net = {cq: gp[cq] + gq - gu * ru / rq, cu: gp[cu] + gu - gq * rq / ru}
+            valued = V['EXT_FX__NET_CAD'][k] * xr['CAD'][k] + V['EXT_FX__NET_USD'][k] * xr['USD'][k] + V['EXT_FX__NET_NUMERAIRE'][k]
+            checks = [('receiver_not_credited_amount_times_cross_rate', V[nu + '__F'][k] - V[nu + '__F'][k - 1], gq * rq / ru - gu),
+                      ('receiver_not_credited_amount_times_cross_rate', V[nq + '__F'][k] - V[nq + '__F'][k - 1], gu * ru / rq - gq),
+                      ('fx_net_positions_not_zero_in_numeraire', valued, 0.0),
+                      ('fx_net_of_currency_not_flows_sent_less_flows_received', V['EXT_FX__NET_' + cq][k], net[cq]),
+                      ('fx_net_of_currency_not_flows_sent_less_flows_received', V['EXT_FX__NET_' + cu][k], net[cu]),
+                      ('exchange_rate_not_the_prescribed_path', V['EXT_XR__CAD'][k], xr['CAD'][k]),
+                      ('exchange_rate_not_the_prescribed_path', V['EXT_XR__USD'][k], xr['USD'][k])]
+            for kind, got, exp in checks:
+                if abs(got - exp) > 1e-6 * max(1.0, abs(exp)):
+                    rec.violate(kind, {'k': k, 'got': got, 'expected': exp, 'region_joins_zone': case['joins'],
+                                       'history': 'SetGoldPurchases called directly during construction, a Region joined an existing zone afterwards'})
+                    break
+            if rec.violations:
+                break
+        return {'verdict': 'violated' if rec.violations else 'held', 'nontrivial': True, 'shape': 'gold_then_region|' + case['joins'],
+                'counters': rec.counters, 'violations': rec.violations}
+
     def run_case(self, case):
         if case.get('kind') == 'retry_after_refusal':
             return self.run_retry_after_refusal(case)
+        if case.get('kind') == 'gold_set_up_directly_then_region_joins':
+            return self.run_gold_then_region(case)
         spec = case['spec']
         cross = self.cross_flows(spec)
         if case.get('twin_without_ext') and cross and not spec.get('row') and not any(z['gov']['form'] in ('gold', 'gold_cb') for z in spec['zones']):
